@@ -276,8 +276,9 @@ void f_link (void) {
     error ("link() efun called before master object is set up.\n");
   if (sp)
     {
-      push_svalue (sp - 1);
-      push_svalue (sp);
+      /* push_svalue() increments sp before it evaluates its argument */
+      push_svalue (sp - 2);	/* from */
+      push_svalue (sp - 2);	/* to */
       ret = apply_master_ob (APPLY_VALID_LINK, 2);
       if (MASTER_APPROVED (ret))
         i = do_rename ((sp - 1)->u.string, sp->u.string, F_LINK);
